@@ -343,6 +343,11 @@ def concrete_case(pattern, folders, opts, witness, names=None):
     if opts.get("packpos"):
         gap = b"JUNKJUNK"
         layout["packpos"] = len(gap)
+    if opts.get("bind_style"):
+        layout["bind_style"] = opts["bind_style"]
+        layout["ncoders"] = [opts.get("ncoders", 1)] * len(folders)   # (two Copy coders: enough for what the header says)
+    if opts.get("inter"):
+        layout["inter_sizes"] = {(fi, ci): opts["inter"] for fi in range(len(folders)) for ci in range(opts.get("ncoders", 1))}
     if opts.get("packcrc"):
         layout["packcrc"] = True
         if opts.get("packcrc_defined"):
